@@ -4,6 +4,7 @@ simcore::install_libc_seams!();
 mod c01;
 mod cancel;
 mod conc;
+mod legacy;
 mod seq;
 mod world;
 
@@ -29,6 +30,7 @@ pub enum Case {
     Seq(c01::SeqCase),
     Conc(conc::ConcCase),
     Cancel(cancel::CancelCase),
+    Legacy(legacy::LegacyCase),
 }
 
 pub struct H {
@@ -36,11 +38,14 @@ pub struct H {
     conc: bool,
 }
 const CANCEL: &str = "cancel";
+const LEGACY: &str = "legacy";
 
 impl Harness for H {
     type Case = Case;
     fn generate(&self, case_seed: u64, idx: u64, tier: Tier) -> Case {
-        if self.flavor == CANCEL {
+        if self.flavor == LEGACY {
+            Case::Legacy(legacy::generate(case_seed, idx, tier))
+        } else if self.flavor == CANCEL {
             Case::Cancel(cancel::generate_cancel(case_seed, idx, tier))
         } else if self.conc {
             Case::Conc(conc::generate_conc(case_seed, idx, tier, self.flavor))
@@ -53,6 +58,7 @@ impl Harness for H {
             Case::Seq(c) => simcore::rng::derive(c.seed, "entropy"),
             Case::Conc(c) => simcore::rng::derive(c.seed, "entropy"),
             Case::Cancel(c) => simcore::rng::derive(c.seed, "entropy"),
+            Case::Legacy(c) => simcore::rng::derive(c.seed, "entropy"),
         }
     }
     fn execute(&self, case: &Case, rep: &mut RunReport) -> Result<(), Violation> {
@@ -60,12 +66,14 @@ impl Harness for H {
             Case::Seq(c) => c01::run_seq(c, rep),
             Case::Conc(c) => conc::run_conc(c, rep),
             Case::Cancel(c) => cancel::run_cancel(c, rep),
+            Case::Legacy(c) => legacy::run(c, rep),
         }
     }
     fn shrink(&self, case: &Case) -> Vec<Case> {
         match case {
             Case::Seq(c) => c01::shrink_seq(c).into_iter().map(Case::Seq).collect(),
             Case::Conc(c) => conc::shrink_conc(c).into_iter().map(Case::Conc).collect(),
+            Case::Legacy(c) => legacy::shrink(c).into_iter().map(Case::Legacy).collect(),
             Case::Cancel(c) => {
                 // find the first failing k cheaply by re-running single points
                 let mut failing = None;
@@ -112,10 +120,17 @@ fn main() {
                 required_probes: &["recovered_states_verified", "crash_at_mutation_intent", "crash_at_collection_meta", "crash_at_ids", "crash_at_document_object", "crash_at_index_object", "log_intents_replayed", "log_documents_auto_repaired", "op_failed_by_injected_fault", "convergence_checked"],
                 required_faults: &["power_loss", "power_loss_during_recovery", "fail_after_unknown_outcome"],
             },
-            vec![(
-                PhaseSpec { label: "seq", quick_runs: 600, thorough_runs: 40000, quick_budget_s: 60.0, thorough_budget_s: 1200.0 },
-                Arc::new(H { flavor: "c01", conc: false }),
-            )],
+            vec![
+                (
+                    PhaseSpec { label: "seq", quick_runs: 600, thorough_runs: 40000, quick_budget_s: 60.0, thorough_budget_s: 1200.0 },
+                    Arc::new(H { flavor: "c01", conc: false }),
+                ),
+                (
+                    // databases written by released versions (committed format fixtures)
+                    PhaseSpec { label: "fixtures", quick_runs: 2000, thorough_runs: 60000, quick_budget_s: 40.0, thorough_budget_s: 400.0 },
+                    Arc::new(H { flavor: LEGACY, conc: false }),
+                ),
+            ],
         ),
         "C02" => standard_main(
             &opts,
